@@ -170,6 +170,7 @@ pub fn run(ctx: &Ctx) -> Report {
         p_limits(!ctx.quick()),
         if ctx.quick() { p5_thin() } else { p5_full() },
         p_guard_args(),
+        p_guard_then_op(),
         p4(ctx.pick(6, 30), false),
     ];
     let seed = ctx.seed;
